@@ -32,7 +32,7 @@ def tryToReorder (f : M α) : M α := do
     match ← withCtx f with
     | none => M.throw .other
     | some r =>
-      M.modify fun m => { m with lastLen := some (2 * lenAfter) }
+      M.modify fun m => { m with lastLen := some (Gen.growthFactor * lenAfter) }
       return r
 
 /-- `BDD.ite` -/
@@ -51,7 +51,7 @@ def configure (reordering : Option Bool) : M Bool := do
   let old := m.lastLen.isSome
   match reordering with
   | none => pure ()
-  | some true => M.set { m with lastLen := some (max 100 m.len) }
+  | some true => M.set { m with lastLen := some (max Gen.reorderStarts m.len) }
   | some false => M.set { m with lastLen := none }
   return old
 
